@@ -211,6 +211,16 @@ impl LocustDB {
     pub fn evict_cache(&self) -> usize {
         self.inner_locustdb.evict_cache()
     }
+
+    #[cfg(feature = "verif")]
+    pub fn verif_catalogue(&self) -> Option<Vec<crate::verif::VerifPartition>> {
+        self.inner_locustdb.verif_catalogue()
+    }
+
+    #[cfg(feature = "verif")]
+    pub fn verif_wal(&self) -> (u64, u64, u64) {
+        self.inner_locustdb.verif_wal()
+    }
 }
 
 #[derive(Clone)]
